@@ -225,7 +225,7 @@ def run(ctx):
     st = core.prepare(ctx, MODULES)
     ctx.assumptions += [
         "host scope and templates are those of the testing host (TestingAnalyzerScopeAdditions, TestingAnalyzerHost)",
-        "imports, singletons, impl blocks, trigger statements, annotations, spawn and type definitions are outside the Lean model "
+        "imports, singletons, impl blocks, trigger statements, annotations and type definitions are outside the Lean model "
         "(oracle only; the impl/template rules are proved for a decision-table model)",
         "warnings and hints are not compared (only error-level diagnostics decide acceptance)",
     ]
